@@ -418,4 +418,33 @@ func UseStack$N() string {
 }
 
 func Apply$N[A, B any](a A, f func(A) B) B { return f(a) }`, `UseStack$N()`},
+	{"renamed-locals-as-literal-keys", `var scale$N = 3
+
+type KeyRec$N struct{ fmt, scale$N int }
+
+func Keys$N(zoom int) string {
+	scale$N := scale$N
+	if zoom > 0 {
+		scale$N = zoom * 2
+	}
+	const fmt = 1
+	const lib = 2
+	sort := "k"
+	strings := 4
+	m := map[int]string{0: "origin", scale$N: "unit", 2 * scale$N: "double", fmt: "one", strings + 20: "far"}
+	arr := [...]string{lib: "two", fmt: "one"}
+	sl := []int{fmt: scale$N, lib: fmt}
+	ms := map[string]int{sort: fmt, sort + "x": lib}
+	rec := KeyRec$N{fmt: fmt, scale$N: scale$N}
+	nested := map[int]map[string]int{strings: {sort: scale$N}}
+	byVar := map[int]int{strings: strings, scale$N: fmt}
+	keys := ""
+	for k := 0; k < 64; k++ {
+		if v, ok := m[k]; ok {
+			keys += string(rune('0'+k%10)) + v
+		}
+	}
+	return keys + arr[lib] + arr[fmt] + string(rune('0'+sl[fmt])) + string(rune('0'+ms[sort]+ms[sort+"x"])) +
+		string(rune('0'+rec.fmt+rec.scale$N)) + string(rune('0'+nested[strings][sort]+len(arr)+len(sl))) + string(rune('0'+byVar[strings]+byVar[scale$N]))
+}`, `Keys$N(0) + "|" + Keys$N(4)`},
 }
